@@ -9,6 +9,9 @@ from pathlib import Path
 from . import emit
 
 
+UNCLASSIFIED_NOTES = []
+
+
 class Unclassified(Exception):
     pass
 
@@ -559,9 +562,27 @@ def dispatcher_facts(cx):
     if len(tr) != 1:
         raise Unclassified("dispatcher: expected exactly one top-level try")
     tr = tr[0]
-    outer = [(src(h.type) if h.type else "BaseException", except_actions(h)) for h in tr.handlers]
-    fin = []
-    flatten_finally(tr.finalbody, [], {}, fin)
+    # Granular fail-closed: a fact group that cannot be classified becomes a sentinel ("?unclassified: ...") which no
+    # reference value equals, so only the obligations that mention THAT fact break (and the properties that never
+    # look at it are not alarmed by an edit that is harmless to them).
+    def guarded(f, sentinel):
+        try:
+            return f()
+        except Unclassified as e:
+            UNCLASSIFIED_NOTES.append(str(e))
+            return sentinel("?unclassified: " + str(e).replace('"', "'"))
+
+    outer = guarded(
+        lambda: [(src(h.type) if h.type else "BaseException", except_actions(h)) for h in tr.handlers],
+        lambda m: [(m, [])],
+    )
+
+    def _fin():
+        f = []
+        flatten_finally(tr.finalbody, [], {}, f)
+        return f
+
+    fin = guarded(_fin, lambda m: [m])
     # inner try around task.result()
     inner = [n for n in ast.walk(ast.Module(body=tr.body, type_ignores=[])) if isinstance(n, ast.Try)]
     if len(inner) != 1:
@@ -569,7 +590,10 @@ def dispatcher_facts(cx):
     inner = inner[0]
     if "task.result()" not in src(inner.body[0]):
         raise Unclassified("dispatcher: inner try does not wrap task.result()")
-    task_exc = [(src(h.type) if h.type else "BaseException", except_actions(h)) for h in inner.handlers]
+    task_exc = guarded(
+        lambda: [(src(h.type) if h.type else "BaseException", except_actions(h)) for h in inner.handlers],
+        lambda m: [(m, [])],
+    )
     # restart offset reset
     exempt = None
     handed = []
@@ -597,7 +621,8 @@ def dispatcher_facts(cx):
                         exempt = []
                         handed = list(ast.literal_eval(prev.test.comparators[0]))
                     else:
-                        raise Unclassified("dispatcher: unconditional restart_offset reset without the hand-over to transfer commands")
+                        UNCLASSIFIED_NOTES.append("dispatcher: unconditional restart_offset reset without the hand-over")
+                        exempt = ["?unclassified: unconditional restart_offset reset without the hand-over to transfer commands"]
     false_ends = False
     for n in ast.walk(disp):
         if isinstance(n, ast.If):
@@ -615,7 +640,8 @@ def dispatcher_facts(cx):
             if isinstance(a, ast.Constant) and a.value.startswith("50"):
                 unknown = a.value
     if exempt is None:
-        raise Unclassified("dispatcher: restart_offset reset not found")
+        UNCLASSIFIED_NOTES.append("dispatcher: restart_offset reset not found")
+        exempt = ["?unclassified: restart_offset reset not found"]
     if unknown is None:
         raise Unclassified("dispatcher: unknown-verb reply not found")
     pend = []
@@ -652,6 +678,7 @@ def generate(src_dir):
     path = Path(src_dir) / "server.py"
     tree = ast.parse(path.read_text())
     cx = Ctx(tree)
+    del UNCLASSIFIED_NOTES[:]
     table, dfacts = dispatcher_facts(cx)
     names = []
     for _, m in table:
@@ -697,7 +724,9 @@ def generate(src_dir):
             abor_test = src(n.test)
     out = emit.HEADER.format(src=str(path))
     out += "From Coq Require Import String.\nFrom Verif Require Import Lib.Facts.\nLocal Open Scope string_scope.\n\n"
-    out += "Definition translator_ok : bool := true.\n\n"
+    out += "Definition translator_ok : bool := true.\n"
+    out += "(* fact groups the translator could not classify (their values are '?unclassified' sentinels) *)\n"
+    out += f"Definition translator_notes : list string := {slist(UNCLASSIFIED_NOTES)}.\n\n"
     out += "Definition dispatcher : dispatcher_facts :=\n  " + dfacts + ".\n\n"
     out += "Definition handlers : list handler := [\n  " + ";\n  ".join(hs) + "\n].\n\n"
     out += "Definition helpers : list handler := [\n  " + ";\n  ".join(helpers) + "\n].\n\n"
